@@ -30,8 +30,10 @@ RULE = ("spec->impl: every multiset of <= N points of the 3x3 lattice (TLC-enume
         "every data sequence of the cover-tree model replayed through the real code.  impl->spec: seeded random data sets of 1..200 "
         "points in 1..6 dimensions (small lattices, collinear, few distinct points, all identical, wide lattice, continuous uniform / "
         "clustered with duplicates / 1-D; keys of continuous data = dense ranks of the library's distances), in- and out-of-sample "
-        "queries; k-NN classifier / regressor on lattice training sets of <= 12 rows, both algorithms, both weightings, every k in "
-        "0..n+1.  A find is non-trivial when the k-th distance is tied with a point outside the answer or the query coincides with a "
+        "queries; k-NN classifier / regressor on lattice training sets of <= 12 rows (a single row and all rows identical included), "
+        "both algorithms, both weightings, every k in 0..n+1, the parameter object built in a random one of the 24 orders of "
+        "with_k / with_weight / with_algorithm / with_distance, by field assignment before / after with_distance, or (Euclid) "
+        "without with_distance.  A find is non-trivial when the k-th distance is tied with a point outside the answer or the query coincides with a "
         "data point (decided by the TLA+ operators TieAtK / QueryInData); an estimator prediction is non-trivial when more than one "
         "k-nearest set exists.  Cases are distinct by construction (each (data order, query, metric, structure, k) is generated once).")
 
@@ -43,6 +45,11 @@ NOT_COVERED = ["Mahalanobis as the search metric", "data sets beyond 200 points"
                "radius queries whose radius equals a data distance exactly are checked (kind 'at') only because both structures "
                "compare the same floating-point numbers; no claim is made for radii within a few ulps of a data distance"]
 
+# Keys of the input classes this check has reported.  The two construction panics (and their
+# estimator counterparts) were repaired in /repo (02cd5f3, b27e8d1; entries "fixed" in
+# known_findings/C04.json, which suppresses nothing): should they come back they are reported as
+# violations under the same keys.  Single-point and all-identical data are ordinary passing
+# cases now and must be exercised (must-hit N1*/Ident*/EstN1*/EstIdent* below).
 KNOWN_KEYS = {
     "n1": "CoverTree::new panics on a one-point data set",
     "ident": "CoverTree::new panics when all (n >= 2) points are identical (overflow checks on)",
@@ -78,8 +85,9 @@ def key_of(e, clause):
                 return KNOWN_KEYS["est-n1"]
             if e.get("ident"):
                 return KNOWN_KEYS["est-ident"]
-        return "KnnPredict %s: kind=%s backend=%s metric=%s weight=%s n=%s k=%s" % (
-            clause.split(":")[0], e.get("kind"), e.get("backend"), e.get("metric"), e.get("weight"), e.get("n"), e.get("k"))
+        return "KnnPredict %s: kind=%s backend=%s metric=%s weight=%s order=%s n=%s k=%s" % (
+            clause.split(":")[0], e.get("kind"), e.get("backend"), e.get("metric"), e.get("weight"), e.get("order"),
+            e.get("n"), e.get("k"))
     if ev == "Heap":
         return "Heap %s: src=%s k=%s" % (clause.split(":")[0], e.get("src"), e.get("k"))
     if ev == "LinFind":
@@ -197,15 +205,19 @@ def run(ctx):
 
     must = {
         "edge": ("Sweep", "Find", "FindErr", "Radius", "RadiusErr", "RadiusAt", "TieAtK", "QueryInData", "linear", "cover",
-                 "man", "euc", "mink", "ham"),
+                 "man", "euc", "mink", "ham", "N1cover", "N1linear", "Identcover", "Identlinear"),
         "random": ("Sweep", "Find", "FindErr", "Radius", "RadiusErr", "TieAtK", "QueryInData", "linear", "cover",
                    "man", "euc", "mink", "ham", "lat", "cont"),
-        "est": ("KnnPredict", "ClsPred", "RegPred", "EstErr", "EstTieAtK", "EstDistance", "EstUnconstrained"),
+        "est": ("KnnPredict", "ClsPred", "RegPred", "EstErr", "EstTieAtK", "EstDistance", "EstUnconstrained",
+                "EstN1clscover", "EstN1regcover", "EstN1clslinear", "EstN1reglinear",
+                "EstIdentclscover", "EstIdentregcover", "EstIdentclslinear", "EstIdentreglinear",
+                "EstWeightBeforeDistancecls", "EstWeightBeforeDistancereg", "EstViaFields", "EstDefaultMetric"),
         "heap": ("Heap", "HeapTlc"),
         "lin": ("LinFind",),
         "tree": ("Tree", "TreeFind"),
         "lattice": ("Sweep", "Find", "FindErr", "Radius", "RadiusErr", "RadiusAt", "TieAtK", "QueryInData", "linear", "cover",
                     "man", "euc", "mink", "ham"),
+        "lattice0": ("Sweep", "N1cover", "N1linear", "Identcover", "Identlinear"),
     }
 
     def validate(name, path, hit_names, keep=True):
@@ -227,7 +239,7 @@ def run(ctx):
         fout = ctx.path("c04-lat-%d.ndjson" % ci)
         ctx.harness("gen-lattice", fin, fout)
         nb = len(acc.bads)
-        v = validate("lattice", fout, must["lattice"] if ci == len(chunks) - 1 else ("Sweep",))
+        v = validate("lattice", fout, must["lattice"] if ci == len(chunks) - 1 else must["lattice0"] if ci == 0 else ("Sweep",))
         with acc.lock:
             lat_events[0] += v["consumed"]
             mine = [b for b in acc.bads if b[0] == fout]
